@@ -290,6 +290,60 @@ pub fn group_scheme<S: LinMap>(rec: &mut Rec, max_len: usize) {
             }
         }
     }
+    // (3) call histories: every sequence (length <= 3) of members over a five-letter alphabet in one
+    // commit call; every non-hiding member's commitment must still be the naive key-defined sum,
+    // whatever was committed before it in the same call.
+    let shapes = crate::source::shapes_short::<S>(&cfg, rec.seed);
+    let pa = shapes[shapes.len() - 1].1.clone();
+    let pz = S::poly_from(&[], &cfg);
+    let top = bounds.last().cloned().flatten();
+    let mut letters: Vec<(&str, S::P, Option<usize>, Option<usize>)> = vec![("N", pa.clone(), None, None), ("Z", pz, None, None), ("H", pa.clone(), None, Some(1))];
+    if top.is_some() && S::degree(&pa) <= top.unwrap() {
+        letters.push(("Nb", pa.clone(), top, None));
+        letters.push(("Hb", pa.clone(), top, Some(1)));
+    }
+    let nl = letters.len();
+    for len in 2..=3usize {
+        for code in 0..nl.pow(len as u32) {
+            let idx: Vec<usize> = (0..len).map(|i| code / nl.pow(i as u32) % nl).collect();
+            if idx.iter().all(|i| letters[*i].3.is_some()) {
+                continue;
+            }
+            let word: Vec<&str> = idx.iter().map(|i| letters[*i].0).collect();
+            let id = format!("{}/seq/{}/{}", S::NAME, cfg.id(), word.join(","));
+            if !rec.take(&id) {
+                continue;
+            }
+            let polys: Vec<LP<S>> = idx.iter().enumerate().map(|(k, i)| lp::<S>(&format!("m{}", k), letters[*i].1.clone(), letters[*i].2, letters[*i].3)).collect();
+            let mut rng = seed_rng(rec.seed, 3);
+            rec.op(1);
+            let cms = match do_commit::<S>(&keys.ck, &polys, Some(&mut rng as &mut dyn RngCore)) {
+                Ok((c, _)) => c,
+                Err(o) => {
+                    viol(rec, S::NAME, "commit/in-domain", &id, format!("batch commit failed: {}", o.short()));
+                    continue;
+                }
+            };
+            let mut ok = true;
+            for (k, p) in polys.iter().enumerate() {
+                if p.hiding_bound().is_some() {
+                    continue;
+                }
+                rec.count_points(1);
+                match S::expected(&keys, p) {
+                    Ok(want) => {
+                        if ser(cms[k].commitment()) != ser(&want) {
+                            ok = false;
+                            viol(rec, S::NAME, "commit/member-differs-from-key-map", &id, format!("non-hiding member {} of one commit call over [{}] is not the key-defined sum", k, word.join(",")));
+                        }
+                    }
+                    Err(e) => viol(rec, S::NAME, "commit/reference", &id, e),
+                }
+            }
+            rec.class(if ok { "sequence-members-match" } else { "sequence-member-differs" });
+            rec.obs(&format!("{}|seq|{}|{}", S::NAME, word.join(","), ok));
+        }
+    }
 }
 
 // ---------------------------------------------------------------------------------------------
